@@ -12,7 +12,7 @@ RULE = ('Histories of express / data / nack / fragmented-envelope / incoming int
         'each run twice on fresh apps: once with every network packet in its minimal form (bare, or LpPacket{PitToken,Fragment} when a '
         'token is present) and once wrapped by an independent encoder in an LpPacket with a drawn subset of optional headers '
         '(CongestionMark, IncomingFaceId, NextHopFaceId, CachePolicy, TxSequence, Ack, NonDiscovery, PrefixAnnouncement, HopCount, '
-        'unassigned types of both parities) in ascending type order. Oracles: metamorphic equality of outcomes, handler calls and '
+        'unassigned types of both parities) in ascending type order (a third of the wrapped runs with the ndn loggers at DEBUG). Oracles: metamorphic equality of outcomes, handler calls and '
         'face output; Nack => exactly the named pending Interests finish with InterestNack.reason == reason (0..2^64-1; absent reason '
         '=> None or 0); fragmented envelopes have no effect; reply to a tokened Interest strict-decodes as LpPacket{PitToken == token, '
         'Fragment == reply bytes}, bare otherwise. Non-trivial = >=2 tokened Interests answered out of order, or >=2 optional headers, '
